@@ -835,9 +835,32 @@ func runHistoryWithFault(h []hist.Op, op string, k int) (calls int, firedIn stri
 			case st.Broken != "" && strings.Contains(st.Broken, "panic"):
 				return calls, firedIn, "panic: " + st.Broken, nil
 			case st.Err != "":
-				// the call reported the failure. With working I/O from here on the writer is closed and the file is read: what
-				// it still lists must not be different data (see afterError)
+				// the call reported the failure; from here on I/O works
 				writer.VerifFaultHook = nil
+				// (1) a refused Resize changed nothing: data of the refused shape is still refused
+				if o.K == "resize" {
+					if obj := ex.M.Resolve(o.Path); obj != nil && ex.DS[obj.ID] != nil && hist.NumElems(o.Dims) != hist.NumElems(obj.Dims) {
+						_, goVal := obj.Spec.Data(o.Dims, 99, hist.ModeSeq)
+						var werr error
+						func() {
+							defer func() {
+								if p := recover(); p != nil {
+									werr = fmt.Errorf("panic: %v", p)
+								}
+							}()
+							werr = ex.DS[obj.ID].Write(goVal)
+						}()
+						if werr == nil {
+							return calls, firedIn, "accepted-refused-shape", nil
+						}
+					}
+				}
+				// (2) the caller tries again: if the second attempt succeeds, the history goes on and must end where the
+				// fault-free run ends; if it is refused too, the file as it stands must not hold different data (afterError)
+				if st2 := ex.Apply(o); st2.Err == "" && st2.Broken == "" {
+					outcome = "retried"
+					continue
+				}
 				_ = ex.Close()
 				return calls, firedIn, "error", obs.Read(file, obs.Options{})
 			}
@@ -897,6 +920,18 @@ func runWriteFault(c WriteFaultCase) vt.Verdict {
 		return vt.Skipped("fault index beyond the calls of the history")
 	case strings.HasPrefix(outcome, "panic"):
 		return vt.Bad("history %d: %s #%d failing made %s panic: %s", c.History, c.Op, c.K, where, outcome)
+	case outcome == "accepted-refused-shape":
+		return vt.Bad("history %d: %s #%d failed during %s, the call returned an error, and afterwards the handle accepts a Write shaped for the refused extent", c.History, c.Op, c.K, where)
+	case outcome == "retried":
+		mine := lastIndep
+		if d := obs.Diff(noAddr(cleanObs(c.History, hs[c.History])), noAddr(final)); d != "" {
+			return vt.Bad("history %d: %s #%d failed during %s, the call returned an error, a second attempt returned nil, and the final content differs from the fault-free run: %s", c.History, c.Op, c.K, where, clip(d))
+		}
+		// (a failed attempt may leave allocated but unreferenced structures behind, e.g. a heap object without an index record:
+		// where the strict decoder refuses the file for that, only the library-level comparison above applies)
+		if ci, _ := cleanIndep.Load(c.History); ci != nil && ci.(string) != mine && strings.HasPrefix(mine, "decode: problems:") {
+			return vt.Bad("history %d: %s #%d failed during %s, a second attempt returned nil, and the stored bytes decode differently from the fault-free run's: %s (fault-free: %s)", c.History, c.Op, c.K, where, clip(mine), clip(ci.(string)))
+		}
 	case outcome == "error" && final != nil:
 		if p := afterError(cleanObs(c.History, hs[c.History]), final, hs[c.History], where); p != "" {
 			return vt.Bad("history %d: %s #%d failed during %s, the call returned an error, and the file read afterwards holds different data: %s", c.History, c.Op, c.K, where, clip(p))
@@ -991,6 +1026,25 @@ func afterError(clean, got *obs.File, h []hist.Op, where string) string {
 		}
 	}
 	return ""
+}
+
+// noAddr returns a copy of the observation without object addresses (a repeated call allocates anew; where an object lies
+// is not content).
+func noAddr(f *obs.File) *obs.File {
+	if f == nil {
+		return nil
+	}
+	c := *f
+	c.Datasets = map[string]*obs.Dataset{}
+	for p, d := range f.Datasets {
+		dd := *d
+		dd.Addr = 0
+		if i := strings.Index(dd.Info, "(address="); i >= 0 {
+			dd.Info = dd.Info[:i] // the Info text names the data address
+		}
+		c.Datasets[p] = &dd
+	}
+	return &c
 }
 
 func attrSubset(path string, clean, got []obs.Attr) string {
